@@ -138,11 +138,6 @@ func c04Shares(p *Prog, c *Check, accept string) {
 		}
 		used, miss := requireAtoms(ap.facts, b, c04Common("Shares")...)
 		if miss == "" {
-			var u2 []string
-			u2, miss = requireAtoms(ap.facts, b, "checkKeyShares($m, DecodePureDKGResult(GetDKGResultForKeyperConfigIndex(_, _, $eon)#0.PureResult)#0)#0 == "+accept)
-			used = append(used, u2...)
-		}
-		if miss == "" {
 			if s, ok := lenAtLeastOne(ap.facts, b, "$m.Shares"); ok {
 				used = append(used, s)
 			} else {
@@ -168,19 +163,43 @@ func rangeLoopOver(p *Prog, fn *ssa.Function, r *ssa.Return, boundPat string, b 
 	return loop
 }
 
+// msgOfValidate finds the asserted message term and the decoded DKG result term of a ValidateMessage.
+func msgAndResult(fi *FnInfo, fn *ssa.Function, facts []Atom, suffix string) (*Term, *Term) {
+	msgParam := fi.T(fn.Params[2])
+	var m, res *Term
+	for _, a := range facts {
+		for _, side := range []*Term{a.L, a.R} {
+			side.walk(func(t *Term) {
+				if m == nil && t.K == TAssert && t.Sub[0].s == msgParam.s && strings.HasSuffix(t.Name, suffix) {
+					m = t
+				}
+				if res == nil && t.K == TRes && t.Idx == 0 && ParsePat("DecodePureDKGResult(_)").Match(t.Sub[0], Binds{}) {
+					res = t
+				}
+			})
+		}
+	}
+	return m, res
+}
+
 func c04SharesLoop(p *Prog, c *Check, accept string) {
 	rule := "C04-R-shares-forall"
-	fn, err := p.Func("keyper/epochkghandler.checkKeyShares")
+	fn, err := p.Func("keyper/epochkghandler.DecryptionKeyShareHandler.ValidateMessage")
 	if !c.Must(err) {
 		return
 	}
-	c.Analysed(shortFn(fn))
 	fi := p.Info(fn)
 	n := 0
 	for _, ap := range acceptPaths(p, fn, accept) {
 		n++
-		b := Binds{"m": fi.T(fn.Params[0]), "r": fi.T(fn.Params[1])}
 		site := p.siteOf(ap.r)
+		mt, rt := msgAndResult(fi, fn, ap.facts, "DecryptionKeyShares")
+		if mt == nil || rt == nil {
+			c.Fail(rule, ap.key, site, shortFn(fn), "Accept return", "no fact about the received message / the decoded DKG result dominates an Accept-compatible return")
+			continue
+		}
+		b := Binds{"m": mt, "r": rt}
+		// the sender index check may live in the validator or in the function the Accept passes through
 		var used []string
 		miss := "$m.KeyperIndex < len($r.PublicKeyShares)"
 		if a, ok := findAtomStrict(ap.facts, miss, b); ok {
@@ -190,31 +209,39 @@ func c04SharesLoop(p *Prog, c *Check, accept string) {
 			c.Fail(rule, ap.key, site, shortFn(fn), "Accept return", "the claimed sender index is not checked against the number of public key shares (`"+miss+"`)", atomStrings(ap.facts)...)
 			continue
 		}
-		loop := rangeLoopOver(p, fn, ap.r, "len($m.Shares)", b)
-		if loop == nil || !fi.onlyByExhaustion(loop, ap.r.Block()) {
-			c.Fail(rule, ap.key, site, shortFn(fn), "Accept return", "Accept is not reached exactly by exhausting a loop over all of the message's shares")
-			continue
-		}
-		b["i"] = loop.Idx
-		m := func(pat string) func(Atom) bool {
-			apat := ParseAtomPat(pat)
-			return func(a Atom) bool { return apat.Match(a, copyBinds(b)) }
-		}
 		verify := "VerifyEpochSecretKeyShare(GetEpochSecretKeyShare($m.Shares[$i])#0, $r.PublicKeyShares[$m.KeyperIndex], ComputeEpochID($m.Shares[$i].IdentityPreimage)) == true"
 		decode := "GetEpochSecretKeyShare($m.Shares[$i])#1 == nil"
-		order := anyOf(m("$i <= 0"), m("$i < 1"), m("$i == 0"),
-			m("0 <= Compare($m.Shares[$i].IdentityPreimage, $m.Shares[($i - 1)].IdentityPreimage)"),
-			m("Compare($m.Shares[($i - 1)].IdentityPreimage, $m.Shares[$i].IdentityPreimage) <= 0"))
-		switch {
-		case !fi.everyIteration(loop, m(decode)):
-			c.Fail(rule, ap.key, site, shortFn(fn), "share loop", "some iteration path does not pass `"+decode+"`")
-		case !fi.everyIteration(loop, m(verify)):
-			c.Fail(rule, ap.key, site, shortFn(fn), "share loop", "some iteration path does not pass the success edge of `"+verify+"` (pairing check of share i against the sender's public key share for share i's identity)")
-		case !fi.everyIteration(loop, order):
-			c.Fail(rule, ap.key, site, shortFn(fn), "share loop", "some iteration path with i > 0 does not establish Compare(identity[i], identity[i-1]) >= 0")
-		default:
-			c.Ok(rule, ap.key, site, shortFn(fn), "Accept return", append(used, "FORALL i: "+verify, "FORALL i: "+decode, "FORALL i>0: identities non-decreasing")...)
+		why := ""
+		ok := p.forallBefore(fn, ap.r, acceptConds(accept), nil, 0, func(lc loopCtx) bool {
+			lb := copyBinds(b)
+			if !ParsePat("len($m.Shares)").Match(lc.bound(), lb) {
+				return false
+			}
+			lb["i"] = lc.loop.Idx
+			m := func(pat string) func(Atom) bool {
+				apat := ParseAtomPat(pat)
+				return func(a Atom) bool { return apat.Match(a, copyBinds(lb)) }
+			}
+			order := anyOf(m("$i <= 0"), m("$i < 1"), m("$i == 0"),
+				m("0 <= Compare($m.Shares[$i].IdentityPreimage, $m.Shares[($i - 1)].IdentityPreimage)"),
+				m("Compare($m.Shares[($i - 1)].IdentityPreimage, $m.Shares[$i].IdentityPreimage) <= 0"))
+			switch {
+			case !lc.everyIteration(m(decode)):
+				why = "some iteration path does not pass `" + decode + "`"
+			case !lc.everyIteration(m(verify)):
+				why = "some iteration path does not pass the success edge of `" + verify + "` (pairing check of share i against the sender's public key share for share i's identity)"
+			case !lc.everyIteration(order):
+				why = "some iteration path with i > 0 does not establish Compare(identity[i], identity[i-1]) >= 0"
+			default:
+				c.Analysed(shortFn(lc.fi.Fn))
+				return true
+			}
+			return false
+		})
+		if !ok && why == "" {
+			why = "Accept is not reached exactly by exhausting a loop over all of the message's shares (in the validator or a function it passes through)"
 		}
+		c.Result(ok, rule, ap.key, site, shortFn(fn), "Accept return", why, append(used, "FORALL i: "+verify, "FORALL i: "+decode, "FORALL i>0: identities non-decreasing")...)
 	}
 	c.Floor(rule, n, 1)
 }
@@ -252,11 +279,6 @@ func c04Keys(p *Prog, c *Check, accept string) {
 		}
 		used, miss := requireAtoms(ap.facts, b, c04Common("Keys")...)
 		if miss == "" {
-			var u2 []string
-			u2, miss = requireAtoms(ap.facts, b, "checkKeysErrors(_, $m, DecodePureDKGResult(GetDKGResultForKeyperConfigIndex(_, _, $eon)#0.PureResult)#0, _)#0 == "+accept)
-			used = append(used, u2...)
-		}
-		if miss == "" {
 			if s, ok := lenAtLeastOne(ap.facts, b, "$m.Keys"); ok {
 				used = append(used, s)
 			} else {
@@ -274,78 +296,85 @@ func c04Keys(p *Prog, c *Check, accept string) {
 
 func c04KeysLoop(p *Prog, c *Check, accept string) {
 	rule := "C04-R-keys-forall"
-	fn, err := p.Func("keyper/epochkghandler.checkKeysErrors")
+	fn, err := p.Func("keyper/epochkghandler.DecryptionKeyHandler.ValidateMessage")
 	if !c.Must(err) {
 		return
 	}
-	c.Analysed(shortFn(fn))
 	fi := p.Info(fn)
 	n := 0
 	for _, ap := range acceptPaths(p, fn, accept) {
 		n++
-		b := Binds{"m": fi.T(fn.Params[1]), "r": fi.T(fn.Params[2])}
 		site := p.siteOf(ap.r)
-		loop := rangeLoopOver(p, fn, ap.r, "len($m.Keys)", b)
-		if loop == nil || !fi.onlyByExhaustion(loop, ap.r.Block()) {
-			c.Fail(rule, ap.key, site, shortFn(fn), "Accept return", "Accept is not reached exactly by exhausting a loop over all of the message's keys")
+		mt, rt := msgAndResult(fi, fn, ap.facts, "DecryptionKeys")
+		if mt == nil || rt == nil {
+			c.Fail(rule, ap.key, site, shortFn(fn), "Accept return", "no fact about the received message / the decoded DKG result dominates an Accept-compatible return")
 			continue
 		}
-		b["i"] = loop.Idx
-		m := func(pat string) func(Atom) bool {
-			apat := ParseAtomPat(pat)
-			return func(a Atom) bool { return apat.Match(a, copyBinds(b)) }
-		}
+		b := Binds{"m": mt, "r": rt}
 		verify := "VerifyEpochSecretKey(GetEpochSecretKey($m.Keys[$i])#0, $r.PublicKey, $m.Keys[$i].IdentityPreimage)#0 == true"
-		// the stored-key alternative: byte equality with the row looked up for (message eon, this identity), row found
-		storedPat := ParseAtomPat("Equal($m.Keys[$i].Key, GetDecryptionKey(_, _, $params)#0.DecryptionKey) == true")
-		stored := func(a Atom, from, to *ssa.BasicBlock) bool {
-			sb := copyBinds(b)
-			if !storedPat.Match(a, sb) {
-				return false
-			}
-			// locate the call and inspect its parameter struct
-			var call *ssa.Call
-			a.L.walk(func(t *Term) {
-				if call == nil && t.K == TCall && nameMatches(t.callName(), "GetDecryptionKey") {
-					call, _ = t.Val.(*ssa.Call)
-				}
-			})
-			if call == nil {
-				return false
-			}
-			args := call.Common().Args
-			flds := fi.structLitFields(args[len(args)-1])
-			if flds == nil {
-				return false
-			}
-			eb := copyBinds(b)
-			if !(ParsePat("Uint64ToInt64Safe($m.Eon)#0").Match(flds["Eon"], eb) || ParsePat("$m.Eon").Match(flds["Eon"], eb)) {
-				return false
-			}
-			if !ParsePat("$m.Keys[$i].IdentityPreimage").Match(flds["EpochID"], eb) {
-				return false
-			}
-			// the row was found: errors.Is(err, ErrNoRows) == false on this path
-			_, found := findAtom(append(append([]Atom{}, fi.blockFacts(from)...), fi.edgeAtoms(from, to)...), "Is(GetDecryptionKey(_, _, _)#1, _) == false", Binds{})
-			return found
-		}
 		decode := "GetEpochSecretKey($m.Keys[$i])#1 == nil"
-		order := anyOf(m("$i <= 0"), m("$i < 1"), m("$i == 0"),
-			m("0 <= Compare($m.Keys[$i].IdentityPreimage, $m.Keys[($i - 1)].IdentityPreimage)"),
-			m("Compare($m.Keys[($i - 1)].IdentityPreimage, $m.Keys[$i].IdentityPreimage) <= 0"))
-		okVerify := fi.everyIterationE(loop, func(a Atom, from, to *ssa.BasicBlock) bool {
-			return m(verify)(a) || stored(a, from, to)
+		why := ""
+		ok := p.forallBefore(fn, ap.r, acceptConds(accept), nil, 0, func(lc loopCtx) bool {
+			lb := copyBinds(b)
+			if !ParsePat("len($m.Keys)").Match(lc.bound(), lb) {
+				return false
+			}
+			lb["i"] = lc.loop.Idx
+			m := func(pat string) func(Atom) bool {
+				apat := ParseAtomPat(pat)
+				return func(a Atom) bool { return apat.Match(a, copyBinds(lb)) }
+			}
+			storedPat := ParseAtomPat("Equal($m.Keys[$i].Key, GetDecryptionKey(_, _, $params)#0.DecryptionKey) == true")
+			stored := func(a Atom, facts []Atom) bool {
+				if !storedPat.Match(a, copyBinds(lb)) {
+					return false
+				}
+				var call *ssa.Call
+				a.L.walk(func(t *Term) {
+					if call == nil && t.K == TCall && nameMatches(t.callName(), "GetDecryptionKey") {
+						call, _ = t.Val.(*ssa.Call)
+					}
+				})
+				if call == nil {
+					return false
+				}
+				args := call.Common().Args
+				flds := lc.fi.structLitFields(args[len(args)-1])
+				if flds == nil || flds["Eon"] == nil || flds["EpochID"] == nil {
+					return false
+				}
+				eon, id := flds["Eon"].subst(lc.m), flds["EpochID"].subst(lc.m)
+				eb := copyBinds(lb)
+				if !(ParsePat("Uint64ToInt64Safe($m.Eon)#0").Match(eon, eb) || ParsePat("$m.Eon").Match(eon, eb)) {
+					return false
+				}
+				if !ParsePat("$m.Keys[$i].IdentityPreimage").Match(id, eb) {
+					return false
+				}
+				_, found := findAtom(facts, "Is(GetDecryptionKey(_, _, _)#1, _) == false", Binds{})
+				return found
+			}
+			order := anyOf(m("$i <= 0"), m("$i < 1"), m("$i == 0"),
+				m("0 <= Compare($m.Keys[$i].IdentityPreimage, $m.Keys[($i - 1)].IdentityPreimage)"),
+				m("Compare($m.Keys[($i - 1)].IdentityPreimage, $m.Keys[$i].IdentityPreimage) <= 0"))
+			okVerify := lc.everyIterationE(func(a Atom, facts []Atom) bool { return m(verify)(a) || stored(a, facts) })
+			switch {
+			case !lc.everyIteration(m(decode)):
+				why = "some iteration path does not pass `" + decode + "`"
+			case !okVerify:
+				why = "some iteration path passes neither the success edge of `" + verify + "` nor byte equality with the key stored for (message eon, this identity) with the row found"
+			case !lc.everyIteration(order):
+				why = "some iteration path with i > 0 does not establish Compare(identity[i], identity[i-1]) >= 0"
+			default:
+				c.Analysed(shortFn(lc.fi.Fn))
+				return true
+			}
+			return false
 		})
-		switch {
-		case !fi.everyIteration(loop, m(decode)):
-			c.Fail(rule, ap.key, site, shortFn(fn), "key loop", "some iteration path does not pass `"+decode+"`")
-		case !okVerify:
-			c.Fail(rule, ap.key, site, shortFn(fn), "key loop", "some iteration path passes neither the success edge of `"+verify+"` nor byte equality with the key stored for (message eon, this identity) with the row found")
-		case !fi.everyIteration(loop, order):
-			c.Fail(rule, ap.key, site, shortFn(fn), "key loop", "some iteration path with i > 0 does not establish Compare(identity[i], identity[i-1]) >= 0")
-		default:
-			c.Ok(rule, ap.key, site, shortFn(fn), "Accept return", "FORALL i: "+verify+" OR stored-key equality for (eon, identity[i])", "FORALL i: "+decode, "FORALL i>0: identities non-decreasing")
+		if !ok && why == "" {
+			why = "Accept is not reached exactly by exhausting a loop over all of the message's keys (in the validator or a function it passes through)"
 		}
+		c.Result(ok, rule, ap.key, site, shortFn(fn), "Accept return", why, "FORALL i: "+verify+" OR stored-key equality for (eon, identity[i])", "FORALL i: "+decode, "FORALL i>0: identities non-decreasing")
 	}
 	c.Floor(rule, n, 1)
 }
